@@ -31,11 +31,22 @@ opaque!(BusListener);
 //@item core/src/message/create_service2.rs struct CreateService2
 //@item core/src/message/destroy_service_reply.rs enum DestroyServiceResult
 //@item core/src/message/destroy_service_reply.rs struct DestroyServiceReply
+//@item core/src/message/query_service_version.rs struct QueryServiceVersion
+//@item core/src/message/query_service_version_reply.rs enum QueryServiceVersionResult
+//@item core/src/message/query_service_version_reply.rs struct QueryServiceVersionReply
+//@item core/src/message/sync.rs struct Sync
+//@item core/src/message/sync_reply.rs struct SyncReply
 
 impl IntoMessage for CreateObjectReply { open spec fn min_minor() -> u32 { 0 } }
 impl IntoMessage for DestroyObjectReply { open spec fn min_minor() -> u32 { 0 } }
 impl IntoMessage for CreateServiceReply { open spec fn min_minor() -> u32 { 0 } }
 impl IntoMessage for DestroyServiceReply { open spec fn min_minor() -> u32 { 0 } }
+impl IntoMessage for QueryServiceVersionReply { open spec fn min_minor() -> u32 { 0 } }
+impl IntoMessage for SyncReply { open spec fn min_minor() -> u32 { 0 } }
+impl ServiceInfo {
+    #[verifier::external_body]
+    pub fn version(self) -> (r: u32) { unimplemented!() }
+}
 
 //@include _shared/registry_preamble_b.rs
 impl Broker {
@@ -487,6 +498,12 @@ impl Broker {
             final(self).inv_objects(), final(self).inv_services(), final(self).inv_object_services(), final(self).inv_ownership(),
             final(self).inv_calls(), final(self).inv_callers(), final(self).inv_conns(), final(self).inv_subs(),
             final(self).reg_winv(), final(self).reg_inv(),
+    //@ghost before `self.remove_object(state, req.cookie);`
+        let ghost pre = *self;
+    //@ghost after `self.remove_object(state, req.cookie);`
+        proof {
+            self.lemma_strong_preserved(&pre);
+        }
     //@end
 
     // ---- create_service / create_service2 / destroy_service -------------------------------------------------------
@@ -496,6 +513,126 @@ impl Broker {
         &&& !self.svcs@.contains_key((self.obj_uuids@[oc], su))
         &&& self.objs@[self.obj_uuids@[oc]].conn_id == *id
     }
+
+    // exactly one service `sc` was registered for object cookie `oc` under service uuid `su`; everything else is as in `o`
+    spec fn service_created(&self, o: &Self, oc: ObjectCookie, su: ServiceUuid, sc: ServiceCookie) -> bool {
+        let u = o.obj_uuids@[oc];
+        &&& !o.svc_uuids@.contains_key(sc)
+        &&& self.svc_uuids@.dom() =~= o.svc_uuids@.dom().insert(sc)
+        &&& self.svc_uuids@[sc].0 == (ObjectId { uuid: u, cookie: oc })
+        &&& self.svc_uuids@[sc].1 == su
+        &&& forall|x: ServiceCookie| #![trigger self.svc_uuids@[x]] o.svc_uuids@.contains_key(x) ==> self.svc_uuids@[x] == o.svc_uuids@[x]
+        &&& self.svcs@.dom() =~= o.svcs@.dom().insert((u, su))
+        &&& self.svcs@[(u, su)].cookie == sc
+        &&& self.svcs@[(u, su)].object_cookie == oc
+        &&& self.svcs@[(u, su)].function_calls@ == Set::<u32>::empty()
+        &&& self.svcs@[(u, su)].subscriptions@ == Set::<ConnectionId>::empty()
+        &&& self.svcs@[(u, su)].all_events@ == Set::<ConnectionId>::empty()
+        &&& forall|e: u32| self.svcs@[(u, su)].subs(e) == Set::<ConnectionId>::empty()
+        &&& self.svcs@[(u, su)].inv()
+        &&& forall|k: (ObjectUuid, ServiceUuid)| #![trigger self.svcs@[k]] o.svcs@.contains_key(k) ==> self.svcs@[k] == o.svcs@[k]
+        &&& self.objs@.dom() =~= o.objs@.dom()
+        &&& self.objs@[u].svcs@ == o.objs@[u].svcs@.insert(sc)
+        &&& self.objs@[u].conn_id == o.objs@[u].conn_id
+        &&& self.objs@[u].cookie == o.objs@[u].cookie
+        &&& forall|u2: ObjectUuid| #![trigger self.objs@[u2]] o.objs@.contains_key(u2) && u2 != u ==> self.objs@[u2] == o.objs@[u2]
+        &&& self.obj_uuids@ =~= o.obj_uuids@ &&& self.calls() =~= o.calls() &&& self.conns@ =~= o.conns@
+    }
+
+    // registering a service (as described by `service_created`) preserves the registry invariant. Proved on its own, away
+    // from the handler bodies (create_service and create_service2 both end with a call to it).
+    proof fn lemma_service_created(&self, o: &Self, id: &ConnectionId, oc: ObjectCookie, su: ServiceUuid, sc: ServiceCookie)
+        requires
+            o.reg_inv(), o.may_create_service(id, oc, su), self.service_created(o, oc, su, sc),
+        ensures
+            self.inv_objects(), self.inv_services(), self.inv_object_services(), self.inv_ownership(),
+            self.inv_calls(), self.inv_callers(), self.inv_conns(), self.inv_subs(),
+            self.reg_winv(), self.reg_inv(),
+    {
+        let u = o.obj_uuids@[oc];
+        assert(self.inv_objects());
+        assert(self.inv_services()) by {
+            assert forall|x: ServiceCookie| self.svc_uuids@.contains_key(x) implies
+                self.svcs@.contains_key(self.skey(x)) && self.svcs@[self.skey(x)].cookie == x
+                && self.svcs@[self.skey(x)].object_cookie == self.svc_uuids@[x].0.cookie by {
+                if x != sc { assert(o.svc_uuids@.contains_key(x)); assert(o.svcs@.contains_key(o.skey(x))); }
+            }
+            assert forall|k: (ObjectUuid, ServiceUuid)| self.svcs@.contains_key(k) implies
+                self.svc_uuids@.contains_key(self.svcs@[k].cookie) && self.skey(self.svcs@[k].cookie) == k by {
+                if k != (u, su) { assert(o.svcs@.contains_key(k)); assert(o.svc_uuids@.contains_key(o.svcs@[k].cookie)); }
+            }
+        }
+        assert(self.inv_object_services()) by {
+            assert forall|u2: ObjectUuid, x: ServiceCookie| self.objs@.contains_key(u2) && #[trigger] self.objs@[u2].svcs@.contains(x) implies
+                self.svc_uuids@.contains_key(x) && self.svc_uuids@[x].0.uuid == u2 by {
+                if x != sc { assert(o.objs@[u2].svcs@.contains(x)); }
+            }
+            assert forall|x: ServiceCookie| self.svc_uuids@.contains_key(x) && self.objs@.contains_key(self.svc_uuids@[x].0.uuid) implies
+                self.objs@[self.svc_uuids@[x].0.uuid].svcs@.contains(x)
+                && self.objs@[self.svc_uuids@[x].0.uuid].cookie == self.svc_uuids@[x].0.cookie by {
+                if x != sc { assert(o.svc_uuids@.contains_key(x)); }
+            }
+        }
+        assert(self.inv_ownership()) by {
+            assert forall|u2: ObjectUuid| self.objs@.contains_key(u2) && self.conns@.contains_key(self.objs@[u2].conn_id) implies
+                self.conns@[self.objs@[u2].conn_id].objects@.contains(self.objs@[u2].cookie) by {
+                assert(o.objs@.contains_key(u2));
+            }
+        }
+        assert(self.inv_calls()) by {
+            assert forall|k: (ObjectUuid, ServiceUuid), s: u32| self.svcs@.contains_key(k) && #[trigger] self.svcs@[k].function_calls@.contains(s)
+                implies self.calls().contains_key(s) && self.calls()[s].callee_obj == k.0 && self.calls()[s].callee_svc == k.1 by {
+                if k != (u, su) { assert(o.svcs@.contains_key(k)); assert(o.svcs@[k].function_calls@.contains(s)); }
+            }
+            assert forall|s: u32| self.calls().contains_key(s) implies
+                self.svcs@.contains_key((self.calls()[s].callee_obj, self.calls()[s].callee_svc))
+                && self.svcs@[(self.calls()[s].callee_obj, self.calls()[s].callee_svc)].function_calls@.contains(s) by {
+                assert(o.calls().contains_key(s));
+                assert(o.svcs@.contains_key((o.calls()[s].callee_obj, o.calls()[s].callee_svc)));
+            }
+        }
+        assert(self.inv_callers());
+        assert(self.inv_conns());
+        assert(self.inv_subs()) by {
+            assert forall|k: (ObjectUuid, ServiceUuid)| self.svcs@.contains_key(k) implies self.svcs@[k].inv() by {
+                if k != (u, su) { assert(o.svcs@.contains_key(k)); }
+            }
+            assert forall|k: (ObjectUuid, ServiceUuid), e: u32, c: ConnectionId| self.svcs@.contains_key(k) && #[trigger] self.svcs@[k].subs(e).contains(c)
+                && self.conns@.contains_key(c) implies self.conns@[c].ev(self.svcs@[k].cookie).contains(e) by {
+                if k != (u, su) { assert(o.svcs@.contains_key(k)); assert(o.svcs@[k].subs(e).contains(c)); }
+            }
+            assert forall|k: (ObjectUuid, ServiceUuid), c: ConnectionId| self.svcs@.contains_key(k) && #[trigger] self.svcs@[k].all_events@.contains(c)
+                && self.conns@.contains_key(c) implies self.conns@[c].all_events@.contains(self.svcs@[k].cookie) by {
+                if k != (u, su) { assert(o.svcs@.contains_key(k)); assert(o.svcs@[k].all_events@.contains(c)); }
+            }
+            assert forall|k: (ObjectUuid, ServiceUuid), c: ConnectionId| self.svcs@.contains_key(k) && #[trigger] self.svcs@[k].subscriptions@.contains(c)
+                && self.conns@.contains_key(c) implies self.conns@[c].subscriptions@.contains(self.svcs@[k].cookie) by {
+                if k != (u, su) { assert(o.svcs@.contains_key(k)); assert(o.svcs@[k].subscriptions@.contains(c)); }
+            }
+        }
+        assert(self.reg_winv());
+        assert(self.subscribers_connected()) by {
+            assert forall|k: (ObjectUuid, ServiceUuid), e: u32, c: ConnectionId| self.svcs@.contains_key(k) && #[trigger] self.svcs@[k].subs(e).contains(c)
+                implies self.conns@.contains_key(c) by {
+                if k != (u, su) { assert(o.svcs@.contains_key(k)); assert(o.svcs@[k].subs(e).contains(c)); }
+            }
+            assert forall|k: (ObjectUuid, ServiceUuid), c: ConnectionId| self.svcs@.contains_key(k) && #[trigger] self.svcs@[k].all_events@.contains(c)
+                implies self.conns@.contains_key(c) by {
+                if k != (u, su) { assert(o.svcs@.contains_key(k)); assert(o.svcs@[k].all_events@.contains(c)); }
+            }
+            assert forall|k: (ObjectUuid, ServiceUuid), c: ConnectionId| self.svcs@.contains_key(k) && #[trigger] self.svcs@[k].subscriptions@.contains(c)
+                implies self.conns@.contains_key(c) by {
+                if k != (u, su) { assert(o.svcs@.contains_key(k)); assert(o.svcs@[k].subscriptions@.contains(c)); }
+            }
+        }
+        assert forall|x: ServiceCookie| self.svc_uuids@.contains_key(x) implies self.objs@.contains_key(self.svc_uuids@[x].0.uuid) by {
+            if x != sc { assert(o.svc_uuids@.contains_key(x)); }
+        }
+        assert forall|u2: ObjectUuid| self.objs@.contains_key(u2) implies self.conns@.contains_key(self.objs@[u2].conn_id) by {
+            assert(o.objs@.contains_key(u2));
+        }
+    }
+
 
     //@fn broker/src/broker.rs Broker::create_service
         requires
@@ -519,23 +656,7 @@ impl Broker {
                 // ... or exactly one service is registered under a cookie no live service uses, attached to that object
                 ||| (r is Ok && exists|sc: ServiceCookie| #![trigger final(self).svc_uuids@.contains_key(sc)] {
                         let u = old(self).obj_uuids@[req.object_cookie];
-                        &&& !old(self).svc_uuids@.contains_key(sc)
-                        &&& final(self).svc_uuids@.dom() =~= old(self).svc_uuids@.dom().insert(sc)
-                        &&& final(self).svc_uuids@[sc].0 == (ObjectId { uuid: u, cookie: req.object_cookie })
-                        &&& final(self).svc_uuids@[sc].1 == req.uuid
-                        &&& forall|o: ServiceCookie| #![trigger final(self).svc_uuids@[o]] old(self).svc_uuids@.contains_key(o) ==> final(self).svc_uuids@[o] == old(self).svc_uuids@[o]
-                        &&& final(self).svcs@.dom() =~= old(self).svcs@.dom().insert((u, req.uuid))
-                        &&& final(self).svcs@[(u, req.uuid)].cookie == sc
-                        &&& final(self).svcs@[(u, req.uuid)].object_cookie == req.object_cookie
-                        &&& final(self).svcs@[(u, req.uuid)].function_calls@ == Set::<u32>::empty()
-                        &&& final(self).svcs@[(u, req.uuid)].subscriptions@ == Set::<ConnectionId>::empty()
-                        &&& final(self).svcs@[(u, req.uuid)].all_events@ == Set::<ConnectionId>::empty()
-                        &&& forall|e: u32| final(self).svcs@[(u, req.uuid)].subs(e) == Set::<ConnectionId>::empty()
-                        &&& forall|k: (ObjectUuid, ServiceUuid)| #![trigger final(self).svcs@[k]] old(self).svcs@.contains_key(k) ==> final(self).svcs@[k] == old(self).svcs@[k]
-                        &&& final(self).objs@[u].svcs@ == old(self).objs@[u].svcs@.insert(sc)
-                        &&& final(self).objs@[u].conn_id == old(self).objs@[u].conn_id
-                        &&& final(self).objs@[u].cookie == old(self).objs@[u].cookie
-                        &&& forall|u2: ObjectUuid| #![trigger final(self).objs@[u2]] old(self).objs@.contains_key(u2) && u2 != u ==> final(self).objs@[u2] == old(self).objs@[u2]
+                        &&& final(self).service_created(old(self), req.object_cookie, req.uuid, sc)
                         &&& final(state).create_service@ == old(state).create_service@.push(
                                 ServiceId { object_id: ObjectId { uuid: u, cookie: req.object_cookie }, uuid: req.uuid, cookie: sc })
                         &&& final(state).rest_eq(old(state), 9)
@@ -554,27 +675,9 @@ impl Broker {
             final(self).reg_winv(), final(self).reg_inv(),
     //@ghost after `self.statistics.num_services = self.statistics.num_services.saturating_add(1);`
         proof {
-            let u = old(self).obj_uuids@[req.object_cookie];
-            let sc = svc_cookie;
-            assert(u == obj_uuid);
-            assert(!old(self).svc_uuids@.contains_key(sc));
-            assert(self.svc_uuids@.dom() =~= old(self).svc_uuids@.dom().insert(sc));
-            assert(self.svc_uuids@[sc].0 == (ObjectId { uuid: u, cookie: req.object_cookie }));
-            assert(self.svcs@.dom() =~= old(self).svcs@.dom().insert((u, req.uuid)));
-            assert(self.svcs@[(u, req.uuid)].cookie == sc);
-            assert(self.svcs@[(u, req.uuid)].function_calls@ == Set::<u32>::empty());
-            assert(forall|k: (ObjectUuid, ServiceUuid)| #![trigger self.svcs@[k]] old(self).svcs@.contains_key(k) ==> self.svcs@[k] == old(self).svcs@[k]);
-            assert forall|k: (ObjectUuid, ServiceUuid), s: u32| self.svcs@.contains_key(k) && #[trigger] self.svcs@[k].function_calls@.contains(s)
-                implies self.calls().contains_key(s) && self.calls()[s].callee_obj == k.0 && self.calls()[s].callee_svc == k.1 by {
-                if k != (u, req.uuid) {
-                    assert(old(self).svcs@.contains_key(k));
-                    assert(old(self).svcs@[k].function_calls@.contains(s));
-                }
-            }
-            assert(forall|e: u32| self.svcs@[(u, req.uuid)].subs(e) == Set::<ConnectionId>::empty());
-            assert(self.objs@[u].svcs@ == old(self).objs@[u].svcs@.insert(sc));
-            assert(forall|u2: ObjectUuid| #![trigger self.objs@[u2]] old(self).objs@.contains_key(u2) && u2 != u ==> self.objs@[u2] == old(self).objs@[u2]);
-            assert(self.svc_uuids@.contains_key(sc));
+            assert(self.service_created(old(self), req.object_cookie, req.uuid, svc_cookie));
+            self.lemma_service_created(old(self), id, req.object_cookie, req.uuid, svc_cookie);
+            assert(self.svc_uuids@.contains_key(svc_cookie));
         }
     //@ghost after `let svc_cookie = ServiceCookie::new_v4();`
         // ASSUMPTION (random UUIDv4): the new cookie is not the cookie of a live service
@@ -606,23 +709,7 @@ impl Broker {
                 // ... or exactly one service is registered under a cookie no live service uses, attached to that object
                 ||| (r is Ok && exists|sc: ServiceCookie| #![trigger final(self).svc_uuids@.contains_key(sc)] {
                         let u = old(self).obj_uuids@[req.object_cookie];
-                        &&& !old(self).svc_uuids@.contains_key(sc)
-                        &&& final(self).svc_uuids@.dom() =~= old(self).svc_uuids@.dom().insert(sc)
-                        &&& final(self).svc_uuids@[sc].0 == (ObjectId { uuid: u, cookie: req.object_cookie })
-                        &&& final(self).svc_uuids@[sc].1 == req.uuid
-                        &&& forall|o: ServiceCookie| #![trigger final(self).svc_uuids@[o]] old(self).svc_uuids@.contains_key(o) ==> final(self).svc_uuids@[o] == old(self).svc_uuids@[o]
-                        &&& final(self).svcs@.dom() =~= old(self).svcs@.dom().insert((u, req.uuid))
-                        &&& final(self).svcs@[(u, req.uuid)].cookie == sc
-                        &&& final(self).svcs@[(u, req.uuid)].object_cookie == req.object_cookie
-                        &&& final(self).svcs@[(u, req.uuid)].function_calls@ == Set::<u32>::empty()
-                        &&& final(self).svcs@[(u, req.uuid)].subscriptions@ == Set::<ConnectionId>::empty()
-                        &&& final(self).svcs@[(u, req.uuid)].all_events@ == Set::<ConnectionId>::empty()
-                        &&& forall|e: u32| final(self).svcs@[(u, req.uuid)].subs(e) == Set::<ConnectionId>::empty()
-                        &&& forall|k: (ObjectUuid, ServiceUuid)| #![trigger final(self).svcs@[k]] old(self).svcs@.contains_key(k) ==> final(self).svcs@[k] == old(self).svcs@[k]
-                        &&& final(self).objs@[u].svcs@ == old(self).objs@[u].svcs@.insert(sc)
-                        &&& final(self).objs@[u].conn_id == old(self).objs@[u].conn_id
-                        &&& final(self).objs@[u].cookie == old(self).objs@[u].cookie
-                        &&& forall|u2: ObjectUuid| #![trigger final(self).objs@[u2]] old(self).objs@.contains_key(u2) && u2 != u ==> final(self).objs@[u2] == old(self).objs@[u2]
+                        &&& final(self).service_created(old(self), req.object_cookie, req.uuid, sc)
                         &&& final(state).create_service@ == old(state).create_service@.push(
                                 ServiceId { object_id: ObjectId { uuid: u, cookie: req.object_cookie }, uuid: req.uuid, cookie: sc })
                         &&& final(state).rest_eq(old(state), 9)
@@ -643,27 +730,9 @@ impl Broker {
         proof { assert(self.svcs@ =~= old(self).svcs@); }
     //@ghost after `self.statistics.num_services = self.statistics.num_services.saturating_add(1);`
         proof {
-            let u = old(self).obj_uuids@[req.object_cookie];
-            let sc = svc_cookie;
-            assert(u == obj_uuid);
-            assert(!old(self).svc_uuids@.contains_key(sc));
-            assert(self.svc_uuids@.dom() =~= old(self).svc_uuids@.dom().insert(sc));
-            assert(self.svc_uuids@[sc].0 == (ObjectId { uuid: u, cookie: req.object_cookie }));
-            assert(self.svcs@.dom() =~= old(self).svcs@.dom().insert((u, req.uuid)));
-            assert(self.svcs@[(u, req.uuid)].cookie == sc);
-            assert(self.svcs@[(u, req.uuid)].function_calls@ == Set::<u32>::empty());
-            assert(forall|k: (ObjectUuid, ServiceUuid)| #![trigger self.svcs@[k]] old(self).svcs@.contains_key(k) ==> self.svcs@[k] == old(self).svcs@[k]);
-            assert forall|k: (ObjectUuid, ServiceUuid), s: u32| self.svcs@.contains_key(k) && #[trigger] self.svcs@[k].function_calls@.contains(s)
-                implies self.calls().contains_key(s) && self.calls()[s].callee_obj == k.0 && self.calls()[s].callee_svc == k.1 by {
-                if k != (u, req.uuid) {
-                    assert(old(self).svcs@.contains_key(k));
-                    assert(old(self).svcs@[k].function_calls@.contains(s));
-                }
-            }
-            assert(forall|e: u32| self.svcs@[(u, req.uuid)].subs(e) == Set::<ConnectionId>::empty());
-            assert(self.objs@[u].svcs@ == old(self).objs@[u].svcs@.insert(sc));
-            assert(forall|u2: ObjectUuid| #![trigger self.objs@[u2]] old(self).objs@.contains_key(u2) && u2 != u ==> self.objs@[u2] == old(self).objs@[u2]);
-            assert(self.svc_uuids@.contains_key(sc));
+            assert(self.service_created(old(self), req.object_cookie, req.uuid, svc_cookie));
+            self.lemma_service_created(old(self), id, req.object_cookie, req.uuid, svc_cookie);
+            assert(self.svc_uuids@.contains_key(svc_cookie));
         }
     //@ghost after `let svc_cookie = ServiceCookie::new_v4();`
         // ASSUMPTION (random UUIDv4): the new cookie is not the cookie of a live service
@@ -709,6 +778,26 @@ impl Broker {
             final(self).inv_objects(), final(self).inv_services(), final(self).inv_object_services(), final(self).inv_ownership(),
             final(self).inv_calls(), final(self).inv_callers(), final(self).inv_conns(), final(self).inv_subs(),
             final(self).reg_winv(), final(self).reg_inv(),
+    //@ghost before `self.remove_service(state, req.cookie);`
+        let ghost pre = *self;
+    //@ghost after `self.remove_service(state, req.cookie);`
+        proof {
+            self.lemma_no_orphans_after_remove_service(&pre, req.cookie);
+            self.lemma_strong_preserved(&pre);
+        }
+    //@end
+
+    // ---- read-only requests ------------------------------------------------------------------------------------------
+    //@fn broker/src/broker.rs Broker::query_service_version
+        ensures
+            final(self).unchanged(old(self)), final(self).stat_same(old(self)),
+            !old(self).conns@.contains_key(*id) ==> r is Ok,
+    //@end
+
+    //@fn broker/src/broker.rs Broker::sync
+        ensures
+            final(self).unchanged(old(self)), final(self).stat_same(old(self)),
+            !old(self).conns@.contains_key(*id) ==> r is Ok,
     //@end
 }
 
